@@ -248,7 +248,14 @@ def run(ctx):
             nums = [int.from_bytes(x[1], "little") for x in lst if x[0] == "bytes" and len(x[1]) == 4]
             okvs = len(nums) == len(lst) and nums == sorted(nums) and int.from_bytes(bytes(sp["versions"]["RfcDraft13"]["wire"]), "little") in nums and len(set(nums)) == len(nums)
         else:
-            okvs = False
+            # the list as one constant (`const SUPPORTED_WIRE: [u8; 8]`, assembled at compile time): the compiler's value of it
+            rb = swe.resolve(values.strip_payload(r))
+            if isinstance(rb, tuple) and rb and rb[0] == "bytes" and len(rb[1]) % 4 == 0 and len(rb[1]) >= 4:
+                lst = [("bytes", rb[1][i:i + 4]) for i in range(0, len(rb[1]), 4)]
+                nums = [int.from_bytes(x[1], "little") for x in lst]
+                okvs = nums == sorted(nums) and int.from_bytes(bytes(sp["versions"]["RfcDraft13"]["wire"]), "little") in nums and len(set(nums)) == len(nums)
+            else:
+                okvs = False
     ctx.check("reply-version", "VERS-in-signed-part", okvs, "signed SREP carries VERS = ascending list containing draft-13 (%s)" % ([fmt(x) for x in lst] if lst else ""),
               "VERS in the signed response is %s" % (fmt(vv) if vv else None), ctx.loc(ms))
     e1 = Ev(P, ms, binds={2: ("enum", VERSION, "Google")})
